@@ -4,6 +4,7 @@ import (
 	"context"
 	"errors"
 	"fmt"
+	"sort"
 	"strings"
 	"testing"
 	"time"
@@ -100,6 +101,34 @@ func (w *c9cWorld) wire() {
 		chain.Config{TargetBuildDuration: time.Hour, TransactionExecutionCores: 1, StateFetchConcurrency: 1, TargetTxsSize: 1 << 30})
 	w.acc = chain.NewAccepter(trace.Noop, w.tvw, w.metrics)
 	w.pre = chain.NewPreExecutor(rf, w.tvw, hMeta, hBalance)
+}
+
+
+// c9cMempool streams a fixed batch in the given order (chain.Mempool is an interface; the real
+// mempool orders by fee, which would hide the position-dependent behaviour of the builder).
+type c9cMempool struct {
+	txs      []*chain.Transaction
+	restored []*chain.Transaction
+}
+
+func (m *c9cMempool) Len(context.Context) int  { return len(m.txs) }
+func (m *c9cMempool) Size(context.Context) int { return len(m.txs) }
+func (m *c9cMempool) Add(_ context.Context, txs []*chain.Transaction) {
+	m.txs = append(m.txs, txs...)
+}
+func (*c9cMempool) StartStreaming(context.Context)     {}
+func (*c9cMempool) PrepareStream(context.Context, int) {}
+func (m *c9cMempool) Stream(_ context.Context, n int) []*chain.Transaction {
+	if n > len(m.txs) {
+		n = len(m.txs)
+	}
+	out := append([]*chain.Transaction{}, m.txs[:n]...)
+	m.txs = m.txs[n:]
+	return out
+}
+func (m *c9cMempool) FinishStreaming(_ context.Context, r []*chain.Transaction) int {
+	m.restored = r
+	return len(r)
 }
 
 func c9cClass(err error) string {
@@ -343,6 +372,73 @@ func TestVerifC09Chain(t *testing.T) {
 					r.ViolationAt("chain-preexecutor-repeat-admitted", w.seqLine, r.Line(), "PreExecutor.PreExecute did not return ErrDuplicateTx for tx %s that is on the parent's chain (err=%v)", f[4], perr)
 				}
 			}
+		case f[0] == "build" && len(f) >= 4 && len(f) == 4+2*int(verifh.U(f[3])) && blk(f[1]) != nil && w.tvw != nil:
+			// Builder.BuildBlock over a mempool holding exactly this batch, in this order
+			p := blk(f[1])
+			if p.out == nil || p.dead {
+				bad()
+				continue
+			}
+			mp := &c9cMempool{}
+			idOf := map[ids.ID]uint64{}
+			ok := true
+			for i := 4; i+1 < len(f); i += 2 {
+				tx, err := w.tx(verifh.U(f[i]), verifh.I(f[i+1]))
+				ok = ok && err == nil
+				if ok {
+					mp.txs = append(mp.txs, tx)
+					idOf[tx.GetID()] = verifh.U(f[i])
+				}
+			}
+			if !ok {
+				bad()
+				continue
+			}
+			builder := chain.NewBuilder(trace.Noop, &genesis.ImmutableRuleFactory{Rules: w.rules}, &logging.NoLog{}, hMeta, hBalance, mp, w.tvw, w.metrics,
+				chain.Config{TargetBuildDuration: time.Hour, TransactionExecutionCores: 1, StateFetchConcurrency: 1, TargetTxsSize: 1 << 30})
+			eb, _, berr := builder.BuildBlock(ctx, nil, p.out)
+			if berr != nil {
+				r.Emit(l, "built-none")
+				continue
+			}
+			var got []uint64
+			for _, tx := range eb.StatelessBlock.Txs {
+				got = append(got, idOf[tx.GetID()])
+			}
+			sort.Slice(got, func(i, j int) bool { return got[i] < got[j] })
+			var gs []string
+			for _, g := range got {
+				gs = append(gs, fmt.Sprint(g))
+			}
+			out := "built -"
+			if len(gs) > 0 {
+				out = "built " + strings.Join(gs, ",")
+			}
+			r.Emit(l, out)
+			// oracle: the built block contains no tx of the parent's chain and no id twice
+			if w.ready {
+				onChain := w.chainIDs(p)
+				seen := map[uint64]bool{}
+				offered := false
+				for i := 4; i+1 < len(f); i += 2 {
+					if _, ok := onChain[verifh.U(f[i])]; ok {
+						offered = true
+					}
+				}
+				if offered {
+					r.Distinct(fmt.Sprintf("%d/%s", w.seqLine, l))
+					r.Count("oracle:build-repeat-offered")
+				}
+				for _, g := range got {
+					if a, ok := onChain[g]; ok {
+						r.ViolationAt("builder-built-repeat", w.seqLine, r.Line(), "Builder.BuildBlock put tx %d into a block on parent %d although ancestor %d already contains it", g, p.n, a)
+					}
+					if seen[g] {
+						r.ViolationAt("builder-built-twice", w.seqLine, r.Line(), "Builder.BuildBlock put tx %d into one block twice", g)
+					}
+					seen[g] = true
+				}
+			}
 		default:
 			bad()
 		}
@@ -372,6 +468,11 @@ func c9cGenerate(r *verifh.Run) []string {
 		verified  bool // expected to have executed successfully
 		dead      bool
 	}
+	// corpus: an expired tx ahead of a tx repeated from an accepted ancestor in one builder batch
+	out = append(out, "reset 60000 0", "blk 0 999999 0 0 0", "idx+ 0", "new! 0", "complete! 0",
+		"blk 1 0 1000 1 1 1 50000", "idx+ 1", "verify 1", "accept! 1",
+		"build 1 30000 3 2 5000 1 50000 3 60000",
+		"build 1 30000 4 4 6000 5 7000 1 50000 6 61000")
 	nseq := r.N(120, 3000)
 	for q := 0; q < nseq; q++ {
 		W := []int64{2000, 5000, 60_000}[rng.Intn(3)]
@@ -434,6 +535,9 @@ func c9cGenerate(r *verifh.Run) []string {
 						continue
 					}
 					e := ts + int64(rng.Intn(int(W/1000)+1))*1000
+					if W == 60_000 && rng.Chance(50) {
+						e = ts + 40_000 + int64(rng.Intn(15))*1000
+					}
 					if e == 0 {
 						e = 1000
 					}
@@ -479,7 +583,7 @@ func c9cGenerate(r *verifh.Run) []string {
 						}
 					}
 				}
-			case k < 92 && len(tips) > 0: // mempool admission (PreExecutor): one tx against a tip
+			case k < 86 && len(tips) > 0: // mempool admission (PreExecutor): one tx against a tip
 				p := tips[rng.Intn(len(tips))]
 				old := chainTxs(p)
 				if len(old) > 0 && rng.Chance(60) {
@@ -490,6 +594,41 @@ func c9cGenerate(r *verifh.Run) []string {
 					add("isrepeat %d 30000 1 %d 31000", p.n, nextTx)
 					nextTx++
 				}
+			case k < 96 && len(tips) > 0 && W == 60_000: // builder: one mempool batch with expired / repeated / fresh txs in any order
+				p := tips[rng.Intn(len(tips))]
+				old := chainTxs(p)
+				var live []uint64 // chain txs still executable at the build time (relative now ~ 30000)
+				for _, c := range old {
+					if exp[c] >= 40_000 {
+						live = append(live, c)
+					}
+				}
+				var sb strings.Builder
+				n := 0
+				usedInBatch := map[uint64]bool{}
+				for i, m := 0, 2+rng.Intn(5); i < m; i++ {
+					switch x := rng.Intn(10); {
+					case x < 3: // expired while waiting in the mempool
+						exp[nextTx] = int64(1+rng.Intn(20)) * 1000
+						fmt.Fprintf(&sb, " %d %d", nextTx, exp[nextTx])
+						nextTx++
+						n++
+					case x < 6 && len(live) > 0: // already on the chain (restored after a reorg)
+						c := live[rng.Intn(len(live))]
+						if usedInBatch[c] {
+							continue
+						}
+						usedInBatch[c] = true
+						fmt.Fprintf(&sb, " %d %d", c, exp[c])
+						n++
+					default: // fresh
+						exp[nextTx] = int64(40+rng.Intn(40)) * 1000
+						fmt.Fprintf(&sb, " %d %d", nextTx, exp[nextTx])
+						nextTx++
+						n++
+					}
+				}
+				add("build %d 30000 %d%s", p.n, n, sb.String())
 			default: // restart: fresh window over the (possibly pruned) index
 				add("idx+ %d", la)
 				add("new! %d", la)
